@@ -24,11 +24,14 @@ pub struct GenCfg {
   pub lambda_this_in_generic_class: bool,
   pub lambda_this_in_enum_class: bool,
   pub fn_typed_field_in_generic_class: bool,
+  pub fuel_in_base_case: bool,
+  pub effects_in_rec_call_args: bool,
+  pub derived_induction_args: bool,
 }
 
 impl Default for GenCfg {
   fn default() -> Self {
-    GenCfg { max_classes: 5, max_depth: 4, node_budget: 220, string_escapes: false, non_ascii_strings: false, wide_vec_ints: false, unboxable_recursive_enum: true, param_swap_tail_calls: true, big_ints: true, single_variant_pointer_enum: true, rec_call_in_short_circuit: true, tuple_typed_field: true, lambda_this_in_generic_class: true, lambda_this_in_enum_class: true, fn_typed_field_in_generic_class: true }
+    GenCfg { max_classes: 5, max_depth: 4, node_budget: 220, string_escapes: false, non_ascii_strings: false, wide_vec_ints: false, unboxable_recursive_enum: true, param_swap_tail_calls: true, big_ints: true, single_variant_pointer_enum: true, rec_call_in_short_circuit: true, tuple_typed_field: true, lambda_this_in_generic_class: true, lambda_this_in_enum_class: true, fn_typed_field_in_generic_class: true, fuel_in_base_case: true, effects_in_rec_call_args: true, derived_induction_args: true }
   }
 }
 
@@ -91,6 +94,8 @@ struct Ctx {
   /// the enclosing class has type parameters
   class_generic: bool,
   class_is_enum: bool,
+  /// generate no printing / calling code (used where a recorded finding drops effects)
+  no_effects: bool,
 }
 
 const STRS: &[&str] = &["", "a", "hello", "x y", "samlang", "0", "-7", "end."];
@@ -383,7 +388,10 @@ impl<'t> Gen<'t> {
 
   /// a reference type (class instance / tuple / Str / fn): candidates for unboxed enum payloads
   fn pointer_type(&mut self, tparams: &[String]) -> Ty {
-    let structs: Vec<ClassSig> = self.classes.iter().filter(|c| !matches!(c.typedef, TypeDef::None)).cloned().collect();
+    // recorded finding: an unboxed payload whose own representation can be a small integer (an enum with
+    // 0-ary variants, incl. the enum itself) collides with the 0-ary variants of the outer enum
+    let enums_ok = self.cfg.unboxable_recursive_enum;
+    let structs: Vec<ClassSig> = self.classes.iter().filter(|c| matches!(c.typedef, TypeDef::Struct(_)) || (enums_ok && matches!(c.typedef, TypeDef::Enum(_)))).cloned().collect();
     match self.t.weighted(&[if structs.is_empty() { 0 } else { 6 }, 2, 2, 1]) {
       0 => {
         let c = structs[self.t.choose(structs.len())].clone();
@@ -410,6 +418,7 @@ impl<'t> Gen<'t> {
       bounded: fs.tparams.iter().filter(|t| t.bound.is_some()).map(|t| t.name.clone()).collect(),
       class_generic: fs.is_method && !fs.class_tparams.is_empty(),
       class_is_enum: fs.is_method && self.classes.iter().any(|c| c.module == fs.module && c.name == fs.class && matches!(c.typedef, TypeDef::Enum(_))),
+      no_effects: false,
     };
     self.budget = self.cfg.node_budget / 3;
     let body = if let Some(fi) = fs.fuel {
@@ -417,7 +426,12 @@ impl<'t> Gen<'t> {
       let n = params[fi].0.clone();
       // if n <= 0 { base } else { step (may call itself with n - 1) }
       cx.rec = None;
+      // recorded finding: re-using the loop guard's comparison (`n <= 0`) as the result of the base case
+      let hidden = if self.cfg.fuel_in_base_case { None } else { Some(cx.env.remove(fi)) };
       let base = self.expr(&fs.ret, &mut cx, 1);
+      if let Some(h) = hidden {
+        cx.env.insert(fi, h);
+      }
       cx.rec = Some((fs.clone(), n.clone()));
       let step = self.rec_step(fs, &mut cx);
       Expr::new(
@@ -451,6 +465,20 @@ impl<'t> Gen<'t> {
     let saved = cx.rec.take();
     let mut args = vec![];
     let style = self.t.choose(4);
+    // recorded finding: a recursive-call argument computed from the loop counter (derived induction variable)
+    let fuel_pos = cx.env.iter().position(|(n, _)| saved.as_ref().map(|(_, f)| f == n).unwrap_or(false));
+    let hidden_fuel = if self.cfg.derived_induction_args {
+      self.feat("recursion:args-may-use-counter");
+      None
+    } else {
+      fuel_pos.map(|i| (i, cx.env.remove(i)))
+    };
+    let was_no_effects = cx.no_effects;
+    if !self.cfg.effects_in_rec_call_args {
+      cx.no_effects = true;
+    } else {
+      self.feat("recursion:effects-in-args-possible");
+    }
     for (i, (name, ty)) in rest.iter().enumerate() {
       // argument i of the recursive call
       let e = match style {
@@ -472,12 +500,16 @@ impl<'t> Gen<'t> {
       args.push(e);
     }
     cx.rec = saved;
+    cx.no_effects = was_no_effects;
+    if let Some((i, e)) = hidden_fuel {
+      cx.env.insert(i, e);
+    }
     let call = self.self_call(fs, cx, args);
     let tail = self.t.bool(1, 2);
     if tail {
       self.feat("recursion:tail");
       // optionally print before recursing
-      if self.t.bool(1, 3) {
+      if self.cfg.effects_in_rec_call_args && self.t.bool(1, 3) {
         let p = self.println_of_env(cx);
         return Expr::new(fs.ret.clone(), EK::Block { stmts: vec![Stmt::Expr(p)], last: Some(Box::new(call)) });
       }
@@ -532,7 +564,7 @@ impl<'t> Gen<'t> {
 
   fn main_class(&mut self, module: &[String]) -> Class {
     let mut stmts = vec![];
-    let mut cx = Ctx { env: vec![], this: None, tparams: vec![], rec: None, rec_used: false, in_lambda: false, bounded: vec![], class_generic: false, class_is_enum: false };
+    let mut cx = Ctx { env: vec![], this: None, tparams: vec![], rec: None, rec_used: false, in_lambda: false, bounded: vec![], class_generic: false, class_is_enum: false, no_effects: false };
     self.budget = self.cfg.node_budget;
     let funs: Vec<FunSig> = self.funs.clone();
     // call every member at least once where its arguments can be built, print what can be printed
@@ -763,7 +795,8 @@ impl<'t> Gen<'t> {
       Ty::Vec(t) => {
         self.feat("vec");
         if self.t.bool(1, 2) {
-          let x = self.leaf(t, cx);
+          // recorded finding: Vec<int> stores 31-bit integers on WebAssembly
+          let x = if **t == Ty::Int && !self.cfg.wide_vec_ints { Expr::new(Ty::Int, EK::Int(self.t.choose(1000) as i32 - 500)) } else { self.leaf(t, cx) };
           Expr::new(ty.clone(), EK::StaticCall { module: vec![], class: "Vec".into(), member: "of".into(), targs: vec![(**t).clone()], args: vec![x] })
         } else {
           Expr::new(ty.clone(), EK::StaticCall { module: vec![], class: "Vec".into(), member: "empty".into(), targs: vec![(**t).clone()], args: vec![] })
@@ -923,7 +956,7 @@ impl<'t> Gen<'t> {
     }
     let d = depth - 1;
     // productions available for every type
-    let generic = self.t.weighted(&[14, 3, 3, 3, 2, 2, 2]);
+    let generic = if cx.no_effects { self.t.weighted(&[14, 3, 3, 0, 0, 2, 0]) } else { self.t.weighted(&[14, 3, 3, 3, 2, 2, 2]) };
     match generic {
       1 => {
         let cond = self.expr(&Ty::Bool, cx, d);
@@ -1051,6 +1084,9 @@ impl<'t> Gen<'t> {
         _ => self.field_of_type(ty, cx).unwrap_or_else(|| self.leaf(ty, cx)),
       },
       Ty::Unit => {
+        if cx.no_effects {
+          return self.leaf(ty, cx);
+        }
         if self.t.bool(2, 3) {
           let s = self.expr(&Ty::Str, cx, d);
           println(s)
@@ -1167,6 +1203,7 @@ impl<'t> Gen<'t> {
         let ite = Expr::new(Ty::Int, EK::If { cond: Box::new(cond), then: Box::new(get), els: Box::new(Expr::new(Ty::Int, EK::Int(-1))) });
         Expr::new(Ty::Int, EK::Block { stmts: vec![Stmt::Let { pat: Pat::Var(iv.clone(), Ty::Int), annot: Some(Ty::Int), init: i }], last: Some(Box::new(ite)) })
       }
+      _ if cx.no_effects => Expr::new(Ty::Int, EK::MethodCall { recv: Box::new(v), method: "length".into(), targs: vec![], args: vec![] }),
       _ => {
         // unguarded get: may end the run with the documented bounds panic
         self.feat("vec-unguarded-get");
